@@ -318,7 +318,7 @@ Proof.
     + destruct (is1 w ";"); [eapply Hfin; [right; exact Hr|exact H]|].
       destruct (negb (is1 w "#")); [eapply Hfin; [exact Hp|exact H]|eapply Hrec1; exact H].
     + destruct (isq w || weq last [bs]).
-      * destruct hc; [eapply Hrec1; exact H|eapply Hrec2; exact H].
+      * destruct (hc || (negb (isq w) && is1 w bs)); [eapply Hrec1; exact H|eapply Hrec2; exact H].
       * destruct (negb (wline w =? wline last)%nat); [eapply Hfin; [exact Hp|exact H]|].
         destruct (hc || is1 w bs); [eapply Hrec1; exact H|eapply Hrec2; exact H].
   - discriminate H.
